@@ -8,4 +8,9 @@ mod utils;
 
 pub mod instructions;
 
+// verification hook (Kani only; see /verif/MANIFEST.json hooks)
+#[cfg(kani)]
+#[path = "/verif/kani/pino_harness.rs"]
+mod verif_kani;
+
 pub type Result<T> = core::result::Result<T, errors::UnifiedError>;
